@@ -244,7 +244,10 @@ def graph_in_domain(ts, cfg):
     """the graph part; inverse neighbours are constrained whether or not inverse_paths is on (as Coq's strict_domb)"""
     cfg = dict(cfg)
     cfg["inverse_paths"] = True
-    if len(set(ts)) != len(ts):
+    # the model's graph keeps the datatype of a literal, not its language tag (Spec/Rdf.v): two statements that differ
+    # in the tag only are one repeated statement there, and Coq's strict_domb excludes repeated statements
+    erased = [(s_, p_, o_[:3] if o_[0] == "L" else o_) for s_, p_, o_ in ts]
+    if len(set(erased)) != len(erased):
         return False
     for s_, p_, o_ in ts:                     # blank-node identifiers start with "_:", IRI identifiers do not
         for x in (s_, o_):
@@ -476,8 +479,8 @@ class Spec(pipeprops.PropSpec):
                 coq_dom, coq_exact = prem[0][1] == "1", prem[0][2] == "1"
                 nitems += 1
                 if coq_dom != graph_in_domain(ts, cfg):
-                    raise RuntimeError("Coq strict_domb = %s but the harness's strict domain predicate says %s" % (
-                        coq_dom, not coq_dom))
+                    raise RuntimeError("Coq strict_domb = %s but the harness's strict domain predicate says %s on\n%s\n%r" % (
+                        coq_dom, not coq_dom, pipe.nt_doc(ts), {k: v for k, v in cfg.items() if v != pipe.base_cfg().get(k)}))
                 if coq_dom and not coq_exact:
                     fails.append((None, "premise profile_exact (P1) of C03_conformance_partial does not hold of the "
                                         "model's profile on this strict-domain input"))
